@@ -181,8 +181,10 @@ def rule_distinct_count(ctx):
             return {"True": True, "False": False, "number": 7}[behaviour]
 
         interp = Interp(model, ch, externals={"builtins.eval": eval_hook})
-        check = Obj(model.cls(DISTINCT), {"_expression": "count >= 2", "_distinct_value_to_count_map": {}, "_location": None})
+        # the bookkeeping starts as the check's own reset() leaves it, whatever private structure that is
+        check = Obj(model.cls(DISTINCT), {"_expression": "count >= 2", "_location": None})
         try:
+            interp.call_function(model.lookup_method(model.cls(DISTINCT), "reset"), [check], {}, None)
             result = interp.call_function(model.func(DISTINCT + "._eval"), [check], {}, None)
             actual = result
         except AbsRaise as raised:
@@ -285,6 +287,51 @@ def rule_reset_completeness(ctx):
             ctx.res.ok("O5.4", what, True)
 
 
+def rule_cleanup_keeps_bookkeeping(ctx):
+    """O5.4c: cleanup() runs when ANY validator on the CID is closed - also an abandoned or forgotten one that is closed (or
+    garbage collected) while a later run is under way.  It may release resources of its own, but the bookkeeping that
+    check_row / check_at_end work on belongs to the run in progress: cleanup() must not write it."""
+    model = ctx.model
+    ctx.res.minimum("O5.4c", 3)
+    for cls in check_classes(model):
+        bookkeeping = set()
+        for name in ("check_row", "check_at_end"):
+            method = model.lookup_method(cls, name)
+            if method is not None:
+                bookkeeping |= _self_attrs_written(method.node)
+                for helper in _self_methods_called(model, cls, method.node):
+                    bookkeeping |= _self_attrs_written(helper.node)
+        reset = model.lookup_method(cls, "reset")
+        if reset is not None:
+            bookkeeping |= _self_attrs_written(reset.node)
+        cleanup = model.lookup_method(cls, "cleanup")
+        written = set()
+        if cleanup is not None:
+            written = _self_attrs_written(cleanup.node)
+            for helper in _self_methods_called(model, cls, cleanup.node):
+                written |= _self_attrs_written(helper.node)
+        touched = sorted(written & bookkeeping)
+        what = "%s.cleanup() leaves the bookkeeping of the run in progress alone (%s)" % (cls.name, ", ".join(sorted(bookkeeping)) or "none")
+        if touched:
+            ctx.res.fail("O5.4c", what, "%s.cleanup:O5.4c:%s" % (cls.qualname.replace("cutplace.", ""), ",".join(touched)),
+                         "%s:%d (%s.cleanup)" % (cleanup.module.relpath, cleanup.node.lineno, cls.name),
+                         "%s.cleanup() writes %s: closing an earlier, abandoned validator on the same CID wipes the keys / counts of the run "
+                         "that is under way" % (cls.name, ", ".join(touched)))
+        else:
+            ctx.res.ok("O5.4c", what, True)
+
+
+def _self_methods_called(model, cls, func_node):
+    found = []
+    for node in walk_own(func_node):
+        if isinstance(node, ast.Call) and isinstance(node.func, ast.Attribute) and isinstance(node.func.value, ast.Name) \
+                and node.func.value.id == "self":
+            method = model.lookup_method(cls, node.func.attr)
+            if method is not None and method.name not in ("reset",):
+                found.append(method)
+    return found
+
+
 def rule_same_data_set_only(ctx):
     """O5.5: 'an earlier row of the SAME data set' - every pass over a data set starts with reset checks (C08's histories)."""
     ctx.res.minimum("O5.5", 1)
@@ -296,12 +343,12 @@ def rule_reset_restores_fresh_state(ctx):
     model = ctx.model
     ctx.res.minimum("O5.4b", 1)
     setups = {
-        IS_UNIQUE: {"_field_names_to_check": ["f0"], "_row_key_to_location_map": None},
-        DISTINCT: {"_field_name_to_count": "f0", "_expression": "count >= 1", "_distinct_value_to_count_map": None},
+        IS_UNIQUE: {"_field_names_to_check": ["f0"]},
+        DISTINCT: {"_field_name_to_count": "f0", "_expression": "count >= 1"},
     }
 
     def snapshot(check, names):
-        return {name: (dict(value) if isinstance(value, dict) else value) for name, value in check.attrs.items() if name in names}
+        return {name: (type(value)(value) if isinstance(value, (dict, set, list)) else value) for name, value in check.attrs.items() if name in names}
 
     def cell(ch):
         class_qualname = ch.choose("check", list(setups))
@@ -309,8 +356,11 @@ def rule_reset_restores_fresh_state(ctx):
         interp = Interp(model, ch, externals={"composed_text_eq": _composed_text_eq(ch)})
         world = World(model, interp, ch)
         check = Obj(model.cls(class_qualname), dict(setups[class_qualname], _description="check"), label="check")
-        state_names = {name for name, value in setups[class_qualname].items() if value is None}
         interp.call_function(model.func(class_qualname + ".reset"), [check], {}, None)
+        # the bookkeeping: whatever reset() sets up, under whatever private names
+        state_names = set(check.attrs) - set(setups[class_qualname]) - {"_description"}
+        if not state_names:
+            return ("%s after %d row(s)" % (class_qualname.rsplit(".", 1)[-1], rows_before), "reset() sets up no state", "reset() sets up the bookkeeping")
         fresh = snapshot(check, state_names)
         location = world.location()
         for index in range(rows_before):
@@ -393,4 +443,4 @@ def rule_rejected_rows_leave_no_key(ctx):
     decide_kinds(ctx, "O5.7", "validate_row(two IsUnique checks)", VALIDATOR + ".validate_row", cell, min_cells=20)
 
 
-RULES = [rule_is_unique, rule_distinct_count, rule_reset_restores_fresh_state, rule_only_accepted_rows, rule_reset_completeness, rule_same_data_set_only, rule_rows_are_numbered_physically, rule_rejected_rows_leave_no_key, rule_module_state]
+RULES = [rule_is_unique, rule_distinct_count, rule_reset_restores_fresh_state, rule_only_accepted_rows, rule_reset_completeness, rule_cleanup_keeps_bookkeeping, rule_same_data_set_only, rule_rows_are_numbered_physically, rule_rejected_rows_leave_no_key, rule_module_state]
